@@ -62,7 +62,13 @@ def gen_histories(tier: str, seed: int) -> list[list[dict]]:
     # alternate compute_inverses on / off and with / without factors
     buckets: dict[tuple, list] = {}
     for h in out:
-        key = (any(x['act'] == 'save' and x['arg'] for x in h),
+        # does a load restore factors (state saved with factors after the
+        # first update) and is it followed by a step?
+        restoring = [i for i, x in enumerate(h)
+                     if x['act'] == 'load' and x['obs']['aFac']['has']]
+        followed = any('step' in [y['act'] for y in h[i + 1:]]
+                       for i in restoring)
+        key = (bool(restoring) and followed,
                any(x['act'] == 'load' and x['arg'] for x in h))
         buckets.setdefault(key, []).append(h)
     mixed = []
@@ -87,10 +93,11 @@ def check_dir(cfg: kaisa.Config, h: list[dict], seed: int) -> list[tuple]:
                            f'(op {m["at"]}): {m["msg"]}',
                            {'cat': m['cat'], 'mode': 'dir'}))
         files = sorted(os.listdir(d)) if os.path.isdir(d) else []
+        want = sorted(gptrun.names_of(cfg.gpt).values())
         if any(x['act'] == 'save' and x['arg'] for x in h) and \
-                files != sorted(gptrun.NAMES.values()):
+                files != want:
             issues.append((f'[directory mode] files {files}, expected one per '
-                           f'layer {sorted(gptrun.NAMES.values())}',
+                           f'layer {want}',
                            {'cat': 'save', 'mode': 'dir'}))
     finally:
         shutil.rmtree(d, ignore_errors=True)
@@ -135,12 +142,13 @@ def main(tier: str, seed: int) -> int:
     cases = []
     i = 0
     for D, M in topos:
-        for h in hs[:n_h]:
+        for hi, h in enumerate(hs[:n_h]):
             cfgd = dict(W=D * M, k=1, prediv=False, method='eigen', F=1, I=2,
                         kl_clip=[0.001, 1e9][i % 2], damping=0.05,
                         bucket_cap_mb=[25.0, 0.0][i % 2],
                         gpt={'D': D, 'M': M, 'bias_col': True,
-                             'bias_row': bool(i % 3)})
+                             'bias_row': bool(i % 3),
+                             'model': ['deep', 'simple'][hi % 2]})
             cases.append({'cfg': cfgd, 'h': h, 'seed': seed * 100 + i,
                           'dir': i % 2 == 0, 'tlc': i % 4 == 0})
             i += 1
